@@ -1,6 +1,7 @@
 package main
 
 import (
+	"fmt"
 	"go/token"
 	"go/types"
 
@@ -48,7 +49,7 @@ func (x *Explorer) step(st *State, in ssa.Instruction) bool {
 		fr.pc++
 	case *ssa.Alloc:
 		st.define(v, Fact{Nil: triNo, Tags: TFresh})
-		if !v.Heap {
+		if isCellAlloc(v) {
 			et := v.Type().Underlying().(*types.Pointer).Elem()
 			cs := Sym{d: st.depth(), i: 1, v: v}
 			st.facts[cs] = zeroFact(et)
@@ -350,8 +351,11 @@ func (x *Explorer) stepUnOp(st *State, v *ssa.UnOp) bool {
 		}
 	case token.MUL:
 		// load
-		if al, ok := v.X.(*ssa.Alloc); ok && !al.Heap {
-			if cs, ok := st.cells[vkey{st.depth(), al}]; ok {
+		if ck, ok := x.cellOf(st, v.X); ok {
+			if cs, ok := st.cells[ck]; ok {
+				if x.Trace != "" {
+					fmt.Printf("      LOADCELL key=%d/%s -> sym d=%d i=%d %v fact=%v\n", ck.d, ck.v.Name(), cs.d, cs.i, cs.v, st.facts[cs])
+				}
 				st.alias(v, cs)
 				return true
 			}
@@ -437,19 +441,26 @@ func (x *Explorer) store3(t Tag, cache, pend, unk Eff) Eff {
 
 func (x *Explorer) stepStore(st *State, v *ssa.Store) {
 	a := x.P.A
-	if al, ok := v.Addr.(*ssa.Alloc); ok && !al.Heap {
-		k := vkey{st.depth(), al}
+	if k, ok := x.cellOf(st, v.Addr); ok {
+		al := k.v.(*ssa.Alloc)
 		if len(st.frames) == 1 && al.Comment != "" {
 			x.L.Event(x, st, &Event{Kind: EvStoreResult, Instr: v, VFact: st.factOf(v.Val)})
 		}
 		switch v.Val.(type) {
 		case *ssa.Const, *ssa.Global, *ssa.Function:
-			cs := Sym{d: st.depth(), i: 1, v: al}
+			cs := Sym{d: k.d, i: 1, v: al}
 			f := st.factOf(v.Val)
 			f.Tags |= x.tagsOf(st, v.Val)
 			st.facts[cs] = f
 			st.cells[k] = cs
 		default:
+			if k.d != st.depth() {
+				// cell of an enclosing frame (closure writing a captured variable): copy the fact
+				cs := Sym{d: k.d, i: 1, v: al}
+				st.facts[cs] = st.factOf(v.Val)
+				st.cells[k] = cs
+				break
+			}
 			s := st.symOf(v.Val)
 			if _, ok := st.facts[s]; !ok {
 				st.facts[s] = Fact{}
@@ -589,4 +600,77 @@ func (x *Explorer) stepLookup(st *State, v *ssa.Lookup) {
 	} else {
 		st.define(v, vf)
 	}
+}
+
+// isCellAlloc: a local variable whose content the engine tracks: a non-escaping alloc, or one that
+// escapes only into closures created in the same function (e.g. a named result assigned in a deferred func).
+func isCellAlloc(v *ssa.Alloc) bool {
+	if !v.Heap {
+		return true
+	}
+	et := v.Type().Underlying().(*types.Pointer).Elem()
+	if !isPointerLike(et) {
+		if b, ok := et.Underlying().(*types.Basic); !ok || b.Info()&(types.IsBoolean|types.IsInteger) == 0 {
+			return false
+		}
+	}
+	refs := v.Referrers()
+	if refs == nil {
+		return false
+	}
+	for _, r := range *refs {
+		switch u := r.(type) {
+		case *ssa.Store:
+			if u.Addr != v {
+				return false
+			}
+		case *ssa.UnOp, *ssa.DebugRef:
+		case *ssa.MakeClosure:
+			// inside the closure the free variable must only be loaded / stored
+			fn := u.Fn.(*ssa.Function)
+			for i, b := range u.Bindings {
+				if b != v {
+					continue
+				}
+				fv := fn.FreeVars[i]
+				if fr := fv.Referrers(); fr != nil {
+					for _, r2 := range *fr {
+						switch u2 := r2.(type) {
+						case *ssa.Store:
+							if u2.Addr != fv {
+								return false
+							}
+						case *ssa.UnOp, *ssa.DebugRef:
+						default:
+							return false
+						}
+					}
+				}
+			}
+		default:
+			return false
+		}
+	}
+	return true
+}
+
+// cellOf resolves an address operand to a tracked cell (own frame alloc, or a free variable bound to a parent's cell).
+func (x *Explorer) cellOf(st *State, addr ssa.Value) (vkey, bool) {
+	switch a := addr.(type) {
+	case *ssa.Alloc:
+		k := vkey{st.depth(), a}
+		if _, ok := st.cells[k]; ok {
+			return k, true
+		}
+	case *ssa.FreeVar:
+		if s, ok := st.env[vkey{st.depth(), a}]; ok {
+			if al, ok := s.v.(*ssa.Alloc); ok && s.i == 0 {
+				k := vkey{s.d, al}
+				if _, ok := st.cells[k]; ok {
+					return k, true
+				}
+			}
+		}
+	}
+	return vkey{}, false
 }
